@@ -160,10 +160,9 @@ theorem lt25_cases (i : Nat) (h : i < 25) : i = 0 ∨ i = 1 ∨ i = 2 ∨ i = 3 
     i = 21 ∨ i = 22 ∨ i = 23 ∨ i = 24 := by omega
 
 theorem mk25_eq (f : Nat → UInt64) : mk25 f = #v[f 0, f 1, f 2, f 3, f 4, f 5, f 6, f 7, f 8, f 9, f 10, f 11,
-    f 12, f 13, f 14, f 15, f 16, f 17, f 18, f 19, f 20, f 21, f 22, f 23, f 24] := by
-  apply Vector.ext
-  intro i hi
-  rcases lt25_cases i hi with h|h|h|h|h|h|h|h|h|h|h|h|h|h|h|h|h|h|h|h|h|h|h|h|h <;> subst h <;>
-    simp [mk25, Vector.getElem_ofFn]
+    f 12, f 13, f 14, f 15, f 16, f 17, f 18, f 19, f 20, f 21, f 22, f 23, f 24] := rfl
+
+theorem mk25_getElem (f : Nat → UInt64) (i : Nat) (hi : i < 25) : (mk25 f)[i] = f i := by
+  rcases lt25_cases i hi with h|h|h|h|h|h|h|h|h|h|h|h|h|h|h|h|h|h|h|h|h|h|h|h|h <;> subst h <;> rfl
 
 end SqiProofs.Keccak
